@@ -105,6 +105,10 @@ pub fn check(c: &Case, obs: &mut Obs) -> Result<(), Fail> {
 }
 
 pub fn replay(_e: &Engine, case: &Value, obs: &mut Obs) -> Result<(), Fail> {
+    if case.get("input_hex").is_some() {
+        let bc = crate::fq::BuildCase::from_json(case).ok_or_else(|| Fail { sig: "bad_replay".into(), msg: "cannot parse case".into() })?;
+        return check_symbol(&bc, "replay", obs);
+    }
     let bad = || Fail { sig: "bad_replay".into(), msg: "cannot parse case".into() };
     let version = case["version"].as_u64().ok_or_else(bad)? as usize;
     let level = level_from(case["level"].as_str().ok_or_else(bad)?);
@@ -167,6 +171,47 @@ fn block_strategy(version: usize, level: Level, len: usize) -> BoxedStrategy<Cas
     ]
     .prop_map(move |(data, fam)| Case { version, level, data, fam })
     .boxed()
+}
+
+/// Symbol level: the EC codewords EMITTED for every block of a built symbol are the remainder of that block's data
+/// codewords (the division routine can be right and the block driver around it - which block is divided, which
+/// remainder is stored where - wrong).
+pub fn check_symbol(bc: &crate::fq::BuildCase, fam: &str, obs: &mut Obs) -> Result<(), Fail> {
+    let built = match super::common::do_build(bc)? {
+        Ok(b) => b,
+        Err(_) => {
+            obs.label("no_symbol");
+            return Ok(());
+        }
+    };
+    let vals = built.values();
+    let d = match refmodel::codec::decode_plain(&vals, built.size()) {
+        Ok(d) => d,
+        Err(_) => {
+            // unreadable symbols are C01/C02's business; here only emitted EC codewords are judged
+            obs.label("unreadable_symbol");
+            return Ok(());
+        }
+    };
+    for (k, (data, ec)) in d.blocks.iter().enumerate() {
+        let want = gf::rs_remainder(data, ec.len());
+        if *ec != want {
+            return fail(
+                "emitted_ec",
+                format!(
+                    "v{} {}: block {} of {} ({} data codewords): emitted EC codewords {} are not data(x)*x^{} mod g(x) = {} ({:?})",
+                    d.read.version, d.read.level.name(), k, d.blocks.len(), data.len(), hex(ec), ec.len(), hex(&want), bc
+                ),
+            );
+        }
+    }
+    obs.label(&format!("symbol_family:{}", fam));
+    obs.count("symbol_blocks_checked", d.blocks.len() as u64);
+    if d.blocks.len() >= 2 {
+        obs.nontrivial(bc.hash());
+    }
+    obs.sample("symbol_level", || bc.to_sample());
+    Ok(())
 }
 
 pub fn run(e: &'static Engine) {
@@ -269,6 +314,9 @@ pub fn run(e: &'static Engine) {
         }
     }
     e.par(jobs);
+    // (d) symbol level: emitted EC codewords of every block of built symbols (random cells, tie-rich small versions,
+    // short payloads in forced larger versions = runs of identical padding blocks, steered and periodic content)
+    super::common::standard_parts(e, 16000, 192000, check_symbol);
     e.set_exhaustive(
         true,
         "generator mapping for all 160 (version, level); single-non-zero-byte basis (every position x every value 1..=255) of the listed block shapes",
